@@ -2,6 +2,7 @@
 """seed_prompt.py <ID> <n>  — create a scratch worktree and print the prompt for a seeding sub-agent."""
 import json, sys, subprocess, os
 pid, n = sys.argv[1], sys.argv[2]
+avoid = sys.argv[3] if len(sys.argv) > 3 else ""
 wt = "/tmp/seed-%s-%s" % (pid, n)
 out = wt + "-out"
 if not os.path.exists(wt):
@@ -20,6 +21,6 @@ This semantic property of the library is supposed to hold:
 
 {text}
 
-Task: make ONE small change to the library's non-test source in your worktree that BREAKS this property, such that (1) the library still compiles (`go build ./...`), (2) the existing tests of the packages you touched and of the packages that depend closely on them still pass (run them; the package github.com/tikv/client-go/v2/tikv has one test that always fails on the unchanged tree — TestKV/TestErrorHalfwayInNewKVStore panics — ignore that package's result), and (3) the breakage needs something specific to manifest — a particular interleaving, a crash or fault at a particular point, a multi-step sequence of operations, an unusual input (boundary value, empty key, particular flag combination), or two cooperating sites that each look fine alone — NOT something that ordinary use would expose at once. Make it look like a plausible mistake or an 'optimisation' a developer could really commit. Then write a demonstration: a Go test file (in the package's directory, name it zz_seed_demo_test.go) or a small program that FAILS with your change and PASSES on the unchanged code (verify both: use `git stash` or `git diff > p.diff; git checkout -- .; ...; git apply p.diff`).
+{("An earlier volunteer already changed this, so pick a DIFFERENT part of the property and a different function: " + avoid + chr(10) + chr(10)) if avoid else ""}Task: make ONE small change to the library's non-test source in your worktree that BREAKS this property, such that (1) the library still compiles (`go build ./...`), (2) the existing tests of the packages you touched and of the packages that depend closely on them still pass (run them; the package github.com/tikv/client-go/v2/tikv has one test that always fails on the unchanged tree — TestKV/TestErrorHalfwayInNewKVStore panics — ignore that package's result), and (3) the breakage needs something specific to manifest — a particular interleaving, a crash or fault at a particular point, a multi-step sequence of operations, an unusual input (boundary value, empty key, particular flag combination), or two cooperating sites that each look fine alone — NOT something that ordinary use would expose at once. Make it look like a plausible mistake or an 'optimisation' a developer could really commit. Then write a demonstration: a Go test file (in the package's directory, name it zz_seed_demo_test.go) or a small program that FAILS with your change and PASSES on the unchanged code (verify both: use `git stash` or `git diff > p.diff; git checkout -- .; ...; git apply p.diff`).
 
 Deliver in {out}/ : patch.diff (`git diff` of the library change only, without the demo), the demo file(s), and README.md stating: which property it breaks and why, exactly what it needs in order to manifest, the commands you ran (build, existing tests, demo with and without the change) and their results. Leave the worktree with the change applied. Keep it to one focused change; do not weaken or edit existing tests. Your final message should summarise the change in 5 lines.""")
